@@ -64,6 +64,11 @@ def view_chain(v, loops):
             a = a[1]
         elif a[0] == 'app' and (a[1] == 'setitem' or a[1].startswith('mut:')) and a[2] and isinstance(a[2][0], Poly):
             a = a[2][0].single_atom()
+        elif a[0] == 'app' and a[1] in ('call:field.insert', 'call:wavefront.Wavefront.insert'):
+            # insert(field, out) accumulates into `out` and hands that same buffer back (C06-e / C07-b)
+            b_ = {k.items[0].value: k.items[1] for k in a[2] if isinstance(k, Tup) and len(k) == 2}
+            o_ = b_.get('out')
+            a = o_.single_atom() if isinstance(o_, Poly) else None
         elif a[0] == 'loop':
             pre = None
             for lp in loops:
@@ -188,8 +193,11 @@ def run(chk, repo, tier):
                 break
             if p.status == 'raise' and p.exc == 'NotImplementedError':
                 n_tilt += 1
+                from ..interp import known_functions as _kf
                 pre = [e for e in p.events if e.kind == 'write' or (e.kind == 'call' and str(e.data.get('callee')) not in
-                                                                    ('builtin:any', 'ext:numpy.any', 'any', 'ext:any'))]
+                                                                    ('builtin:any', 'ext:numpy.any', 'any', 'ext:any')
+                                                                    and not (repo.has_func(str(e.data.get('callee'))) and
+                                                                             str(e.data.get('callee')) not in _kf()))]
                 if pre or p.conds[0][1] is not True:
                     first_ok, det = False, 'work is done before the tilt refusal: ' + ', '.join(str(e.data.get('callee') or e.data.get('how')) for e in pre[:3])
         chk.ob('C09-a', 'D-dominance', f.key, 'tilt refusal precedes everything',
